@@ -1102,6 +1102,12 @@ func (e *Env) method(recv reflect.Value, name string, args []Val) (Val, *Err) {
 		}
 		recv = recv.Elem()
 	}
+	if recv.Kind() == reflect.Struct && recv.Type() == reflect.TypeOf(facts.Sub{}) && (name == "VTwice" || name == "VSeven") {
+		// value-receiver methods are in the method set of the struct value itself
+		tmp := reflect.New(recv.Type())
+		tmp.Elem().Set(recv)
+		recv = tmp
+	}
 	if recv.Kind() != reflect.Ptr {
 		return Val{}, errf(EUnknown, "method %s on non-pointer", name)
 	}
@@ -1140,6 +1146,21 @@ func (e *Env) method(recv reflect.Value, name string, args []Val) (Val, *Err) {
 				return Val{}, errf(EUndefined, "overflow")
 			}
 			return vInt(r, reflect.Int64), nil
+		case "VTwice":
+			a, err := i64(1)
+			if err != nil {
+				return Val{}, err
+			}
+			r, ok := mulOv(2, a[0])
+			if !ok {
+				return Val{}, errf(EUndefined, "overflow")
+			}
+			return vInt(r, reflect.Int64), nil
+		case "VSeven":
+			if len(args) != 0 {
+				return Val{}, errf(EKind, "argument count")
+			}
+			return vInt(7, reflect.Int64), nil
 		}
 		return Val{}, errf(EUnknown, "no method %s on Sub", name)
 	case *facts.Fact:
